@@ -47,6 +47,10 @@ Fixpoint lookup (x : string) (e : list (string * gval)) : option gval :=
 
 Definition cmp_int (c : comparison) : Z := match c with Lt => (-1)%Z | Eq => 0%Z | Gt => 1%Z end.
 
+(* comparison of string *data* (kept apart from the comparison of variable / field names so that
+   proofs can reduce the latter and leave the former symbolic) *)
+Definition data_str_eqb (a b : string) : bool := String.eqb a b.
+
 (* an untyped Go constant compared with an int: coerce the constant *)
 Definition coerce (a b : gval) : gval * gval :=
   match a, b with
@@ -74,8 +78,8 @@ Definition bin (op : string) (a0 b0 : gval) : option gval :=
   | ">", VInt x, VInt y => Some (VBool (Z.ltb y x))
   | "<=", VInt x, VInt y => Some (VBool (Z.leb x y))
   | ">=", VInt x, VInt y => Some (VBool (Z.leb y x))
-  | "==", VStr x, VStr y => Some (VBool (String.eqb x y))
-  | "!=", VStr x, VStr y => Some (VBool (negb (String.eqb x y)))
+  | "==", VStr x, VStr y => Some (VBool (data_str_eqb x y))
+  | "!=", VStr x, VStr y => Some (VBool (negb (data_str_eqb x y)))
   | "==", VBool x, VBool y => Some (VBool (Bool.eqb x y))
   | "!=", VBool x, VBool y => Some (VBool (negb (Bool.eqb x y)))
   | _, _, _ => None
